@@ -44,7 +44,7 @@ def showIter (r : List Ev × Option (SaphyrModel.Res Unit)) : String :=
     | some (.ok _) => "DONE"
   s!"{" ".intercalate (r.1.map fun (e, sp) => showEv e sp)} ; {tail}"
 
-def runEvtP (p : PState) : String := showIter (iterate (4 * p.toks.length + 64) (Api.init p) [])
+def runEvtP (p : PState) : String := showIter (iterate (16 * p.toks.length + 3) (Api.init p) [])
 
 def runEvt (kind cap keep hex : String) : String :=
   match parserFor kind cap.toNat! (keep == "1") (decodeHex hex) with
